@@ -249,7 +249,10 @@ func finish(c *lcase, hang bool, kind string) cres {
 	return res
 }
 
+// newCase: nkeys keys that are locked plus one more key (the last) that is never locked and only
+// sees Unlock calls.
 func newCase(nkeys int) *lcase {
+	nkeys++
 	return &lcase{l: lock.New(), nkeys: nkeys, ntok: make([]int, nkeys), recs: make([][]*rec, nkeys)}
 }
 
@@ -276,6 +279,9 @@ func concurrentCase(r *common.Rng) cres {
 				if rr.Chance(25) {
 					cancelAfter = time.Duration(rr.Intn(12000)) * time.Microsecond
 				}
+				if rr.Chance(8) {
+					cancelAfter = 0 // the context is already done when Lock is called
+				}
 				tok, id, ok := doLock(c, a, key, ttl, cancelAfter)
 				if !ok {
 					continue
@@ -294,8 +300,10 @@ func concurrentCase(r *common.Rng) cres {
 					doUnlock(c, a, key, key, tok, id)
 					doUnlock(c, a, key, key, tok, id)
 				default: // own id on the wrong key, then the real unlock
-					if nkeys > 1 {
+					if nkeys > 1 && rr.Bool() {
 						doUnlock(c, a, (key+1)%nkeys, key, tok, id)
+					} else {
+						doUnlock(c, a, nkeys, key, tok, id) // a key that nobody ever locks
 					}
 					spinSleep(time.Duration(rr.Intn(1000)) * time.Microsecond)
 					doUnlock(c, a, key, key, tok, id)
@@ -392,8 +400,13 @@ func serialCase(r *common.Rng) cres {
 			default:
 			}
 		case k < 7:
-			doUnlock(c, ha, 0, 0, -1, uuid.NewString())
-			ops = append(ops, "unlock foreign id")
+			if r.Bool() {
+				doUnlock(c, ha, 0, 0, -1, uuid.NewString())
+				ops = append(ops, "unlock foreign id")
+			} else {
+				doUnlock(c, ha, 1, 0, -1, uuid.NewString())
+				ops = append(ops, "unlock on a never-locked key")
+			}
 		case k < 9 && x.started:
 			x.cancel()
 			select {
